@@ -230,6 +230,15 @@ mod search;
 mod sync;
 mod util;
 
+/// Hooks for the verification harness; compiled only with `--cfg ldap3_verif`.
+#[cfg(ldap3_verif)]
+pub mod verif {
+    pub use crate::conn::{verif_take_trace, verif_trace, VerifIo};
+    #[cfg(not(feature = "gssapi"))]
+    pub use crate::protocol::verif_encode;
+    pub use crate::protocol::verif_decode;
+    pub use crate::result::verif_result_ext;
+}
 pub use conn::{LdapConnAsync, LdapConnSettings, StdStream};
 pub use filter::parse as parse_filter;
 pub use ldap::{Ldap, Mod};
